@@ -3,6 +3,7 @@ package load
 import (
 	_ "embed"
 	"fmt"
+	"go/types"
 	"sort"
 	"strings"
 
@@ -23,6 +24,98 @@ import (
 //go:embed baseline_funcs.txt
 var baselineFuncs string
 
+// baselineFields is the table of struct fields of the pinned tree ("pkg.Type<TAB>field<TAB>type" per line),
+// used only to recognise a renamed field (see fieldAliases).
+//
+//go:embed baseline_fields.txt
+var baselineFields string
+
+// FieldAlias maps, per struct type (full import path + "." + name), the present name of a field that was
+// recognised as renamed to the name the rule tables use. Applied by an.AsField and props.structFields.
+var FieldAlias = map[string]map[string]string{}
+
+// StructFieldsOf lists the named struct types of the repository with their fields.
+func StructFieldsOf(prog *ssa.Program) map[string][][2]string {
+	out := map[string][][2]string{}
+	for _, sp := range prog.AllPackages() {
+		if sp.Pkg == nil || !strings.HasPrefix(sp.Pkg.Path(), ModulePath) {
+			continue
+		}
+		for _, mem := range sp.Members {
+			tm, ok := mem.(*ssa.Type)
+			if !ok {
+				continue
+			}
+			named, ok := tm.Type().(*types.Named)
+			if !ok {
+				continue
+			}
+			st, ok := named.Underlying().(*types.Struct)
+			if !ok || strings.HasSuffix(prog.Fset.Position(named.Obj().Pos()).Filename, "_test.go") {
+				continue
+			}
+			key := sp.Pkg.Path() + "." + named.Obj().Name()
+			for i := 0; i < st.NumFields(); i++ {
+				out[key] = append(out[key], [2]string{st.Field(i).Name(), types.TypeString(st.Field(i).Type(), nil)})
+			}
+		}
+	}
+	return out
+}
+
+// fieldAliases recognises renamed fields: in a struct that still exists, a baseline field that is gone and
+// exactly one new field of the same type (which matches no other vanished field) are the same field.
+func fieldAliases(prog *ssa.Program) []string {
+	base := map[string][][2]string{}
+	for _, l := range strings.Split(baselineFields, "\n") {
+		parts := strings.Split(strings.TrimSpace(l), "\t")
+		if len(parts) == 3 && !strings.HasPrefix(l, "#") {
+			base[parts[0]] = append(base[parts[0]], [2]string{parts[1], parts[2]})
+		}
+	}
+	var notes []string
+	if len(base) == 0 {
+		return nil
+	}
+	for T, now := range StructFieldsOf(prog) {
+		was, ok := base[T]
+		if !ok {
+			continue
+		}
+		has := map[string]bool{}
+		for _, f := range now {
+			has[f[0]] = true
+		}
+		had := map[string]bool{}
+		for _, f := range was {
+			had[f[0]] = true
+		}
+		goneByType := map[string][]string{}
+		for _, f := range was {
+			if !has[f[0]] {
+				goneByType[f[1]] = append(goneByType[f[1]], f[0])
+			}
+		}
+		newByType := map[string][]string{}
+		for _, f := range now {
+			if !had[f[0]] {
+				newByType[f[1]] = append(newByType[f[1]], f[0])
+			}
+		}
+		for typ, gone := range goneByType {
+			if len(gone) == 1 && len(newByType[typ]) == 1 {
+				if FieldAlias[T] == nil {
+					FieldAlias[T] = map[string]string{}
+				}
+				FieldAlias[T][newByType[typ][0]] = gone[0]
+				notes = append(notes, T+"."+newByType[typ][0]+": taken to be the renamed field "+gone[0])
+			}
+		}
+	}
+	sort.Strings(notes)
+	return notes
+}
+
 // transparent lists baseline helpers that the rules deliberately look through: they are absorbed into
 // their callers like glue, so that a tree that calls the helper and a tree in which a maintainer has
 // inlined it by hand present the same shape to the rules (which are phrased on the callers).
@@ -32,15 +125,55 @@ var transparent = map[string]bool{
 	"(*go.amzn.com/lambda/rapidcore/env.Environment).mergeCustomerEnvironmentVariables": true,
 }
 
+// baselineSet: name -> signature key ("" when the table has none)
 var baselineSet = func() map[string]bool {
 	m := map[string]bool{}
 	for _, l := range strings.Split(baselineFuncs, "\n") {
 		if l = strings.TrimSpace(l); l != "" && !strings.HasPrefix(l, "#") {
-			m[l] = true
+			name := l
+			if i := strings.Index(l, "\t"); i >= 0 {
+				name = l[:i]
+				baselineSig[name] = l[i+1:]
+			}
+			m[name] = true
 		}
 	}
 	return m
 }()
+
+var baselineSig = map[string]string{}
+
+// SigKey renders a signature without parameter names (renaming a parameter is not a different function).
+func SigKey(sig *types.Signature) string {
+	var b strings.Builder
+	b.WriteString("(")
+	for i := 0; i < sig.Params().Len(); i++ {
+		if i > 0 {
+			b.WriteString(",")
+		}
+		if sig.Variadic() && i == sig.Params().Len()-1 {
+			b.WriteString("...")
+		}
+		b.WriteString(types.TypeString(sig.Params().At(i).Type(), nil))
+	}
+	b.WriteString(")->(")
+	for i := 0; i < sig.Results().Len(); i++ {
+		if i > 0 {
+			b.WriteString(",")
+		}
+		b.WriteString(types.TypeString(sig.Results().At(i).Type(), nil))
+	}
+	b.WriteString(")")
+	return b.String()
+}
+
+// owner is the part of an ssa function name that a rename cannot change: package and receiver.
+func owner(name string) string {
+	if i := strings.LastIndex(name, "."); i >= 0 {
+		return name[:i]
+	}
+	return name
+}
 
 // TopLevelSourceFuncs lists the top-level source functions of the repository (non-test files).
 func TopLevelSourceFuncs(prog *ssa.Program) []*ssa.Function {
@@ -64,6 +197,39 @@ func TopLevelSourceFuncs(prog *ssa.Program) []*ssa.Function {
 // normalise brings the program into the analysis normal form, in place.
 func normalise(prog *ssa.Program) (map[*ssa.Function]bool, *ssa.VerifNorm, []string, error) {
 	fns := TopLevelSourceFuncs(prog)
+	renames := fieldAliases(prog)
+	// Renamed functions: a baseline function that no longer exists and exactly one new function with the same
+	// package, receiver and signature (parameter names aside), which in turn matches no other vanished function,
+	// is taken to be that function under a new name and gets its old name back for the rules.
+	if len(baselineSet) > 0 {
+		present := map[string]bool{}
+		for _, fn := range fns {
+			present[fn.String()] = true
+		}
+		type cand struct{ fn *ssa.Function }
+		newBy := map[string][]*ssa.Function{} // owner + sig -> new functions
+		for _, fn := range fns {
+			if !baselineSet[fn.String()] {
+				k := owner(fn.String()) + "|" + SigKey(fn.Signature)
+				newBy[k] = append(newBy[k], fn)
+			}
+		}
+		goneBy := map[string][]string{}
+		for name := range baselineSet {
+			if !present[name] && baselineSig[name] != "" {
+				k := owner(name) + "|" + baselineSig[name]
+				goneBy[k] = append(goneBy[k], name)
+			}
+		}
+		for k, gone := range goneBy {
+			if len(gone) == 1 && len(newBy[k]) == 1 {
+				fn := newBy[k][0]
+				old := gone[0]
+				renames = append(renames, fn.String()+": taken to be the renamed "+old)
+				ssa.VerifRename(fn, old[strings.LastIndex(old, ".")+1:])
+			}
+		}
+	}
 	glue := map[*ssa.Function]bool{}
 	for _, fn := range fns {
 		if (!baselineSet[fn.String()] || transparent[fn.String()]) && fn.Name() != "init" && !strings.HasPrefix(fn.Name(), "init#") && fn.Name() != "main" {
@@ -146,6 +312,7 @@ func normalise(prog *ssa.Program) (map[*ssa.Function]bool, *ssa.VerifNorm, []str
 			notes = append(notes, fn.String()+": kept as a function ("+why[fn]+")")
 		}
 	}
+	notes = append(notes, renames...)
 	sort.Strings(notes)
 	return absorbed, norm, notes, nil
 }
